@@ -16,7 +16,8 @@ TECHNIQUE = ("relational property-based testing (Hypothesis) over pairs of assem
              "assemblies found by search in the overhang graphs of the registries")
 RULE = ("(a) C01 assemblies over all enzymes plus, for a drawn chain position, a "
         "replacement module with the same overhangs and a fresh target/backbone of "
-        "another length and rotation; (b) for each bundled registry (YTK, PTK+YTK, "
+        "another length and rotation (a quarter of them spelled in another letter "
+        "case); (b) for each bundled registry (YTK, PTK+YTK, "
         "CIDAR, EcoFlex, Plant with a generated GGAG/CGCT BsaI vector) every path of "
         "module types from a vector's downstream to its upstream overhang (up to 6 "
         "type paths x up to 2 vectors, thorough: all), instantiated with the first "
@@ -133,7 +134,10 @@ def _world(reg):
     for r in sources:
         for key, cls, word, record in registries.items(r):
             ent = cls(record)
-            if not ent.is_valid():
+            try:
+                if not ent.is_valid():
+                    continue
+            except Exception:  # noqa -- totality of is_valid is C17's subject
                 continue
             (mods if kits.role_of(cls) == "module" else vecs)[key] = ent
     if reg == "plant":
@@ -220,8 +224,11 @@ def run_exhaustive(arg, ctx):
 def _gen_specs(draw):
     a = draw(plasmid.assembly_spec(max_chain=5, max_seg=30))
     g = dna.geometry(dna.enzyme_by_name(a["enzyme"]))
-    return {"kind": "gen", "assembly": a, "pos": draw(st.integers(0, 5)),
-            "repl": draw(plasmid.module_body(g, 40))}
+    repl = draw(plasmid.module_body(g, 40))
+    if draw(st.integers(0, 3)) == 0:
+        from vlib import gen
+        repl["case"] = draw(gen.case_masks())     # same overhangs, other spelling
+    return {"kind": "gen", "assembly": a, "pos": draw(st.integers(0, 5)), "repl": repl}
 
 
 def strategies(tier):
